@@ -71,6 +71,11 @@ def check_c02(tier, seed):
         sample_edges(run, edges)
         for t in ("osfs", "memfs", "orefafs"):
             run.replay(edges, t)
+        # directory handles over a directory with three entries: batch sizes incl. the largest int, two cursors,
+        # ReadDir and Readdirnames mixed, rewinds, entries coming and going between batches
+        dedges = run.generate("dirh", 4 if tier == "quick" else 5, "dirh")
+        for t in ("osfs", "memfs", "orefafs"):
+            run.replay(dedges, t, names="a,b,c,d")
         for k, (n, ln) in enumerate([(16, 120)] if tier == "quick" else [(150, 200), (150, 200)]):
             run.random(n, ln, sym=False, own=False, handles=True, names="a,b", depth=2, seed=seed * 11 + k)
         run.cov["universe"] = "one file with up to two names (/w/a, /w/b) and the directory /w; up to 2 open handles; all 36 flag " \
